@@ -9,7 +9,8 @@ def sh(cmd, **kw):
     return subprocess.run(cmd, shell=True, capture_output=True, text=True, **kw)
 
 def validate(pid, ks):
-    src = Path('/tmp/seed-%s/OUT' % pid)
+    src = Path(os.environ.get('SEED_PREFIX', '/tmp/seed-') + '%s/OUT' % pid)
+    off = int(os.environ.get('SEED_OFFSET', '0'))
     for k in ks:
         d = src / str(k)
         if not (d / 'patch.diff').exists():
@@ -27,7 +28,7 @@ def validate(pid, ks):
         ok = ap.returncode == 0 and '384 passed' in tests.stdout and base.returncode == 0 and demo.returncode != 0
         print('%s-%s applies=%s tests=%r demo_without=%d demo_with=%d -> %s' % (pid, k, ap.returncode == 0, tests.stdout.strip()[-40:], base.returncode, demo.returncode, 'KEEP' if ok else 'REJECT'))
         if ok:
-            out = V / 'seeded' / ('%s-%s' % (pid, k)); out.mkdir(parents=True, exist_ok=True)
+            out = V / 'seeded' / ('%s-%s' % (pid, int(k) + off)); out.mkdir(parents=True, exist_ok=True)
             # store the patch as a diff against /repo HEAD
             (out / 'patch.diff').write_text(sh('git diff', cwd=wt).stdout)
             shutil.copy(d / 'demo.py', out / 'demo.py')
